@@ -60,23 +60,25 @@ func fatalf(format string, a ...any) {
 
 // Ctx is the loaded, type-checked, SSA-built repository plus the obligations collected so far.
 type Ctx struct {
-	repo  string
-	fset  *token.FileSet
-	ppkg  *packages.Package
-	tpkg  *types.Package
-	info  *types.Info
-	prog  *ssa.Program
-	spkg  *ssa.Package
-	all   []*packages.Package
-	tier  string
-	goos  string
-	arch  string
-	decls map[string]*ast.FuncDecl // "Name" or "(T).Name"
+	hpats    []helperPat
+	hpatBusy bool
+	repo     string
+	fset     *token.FileSet
+	ppkg     *packages.Package
+	tpkg     *types.Package
+	info     *types.Info
+	prog     *ssa.Program
+	spkg     *ssa.Package
+	all      []*packages.Package
+	tier     string
+	goos     string
+	arch     string
+	decls    map[string]*ast.FuncDecl // "Name" or "(T).Name"
 
 	cgCHA *callgraph.Graph
 	cgVTA *callgraph.Graph
 
-	mods     map[*ssa.Function]map[string]bool
+	mods map[*ssa.Function]map[string]bool
 
 	obs      []Ob
 	analysed map[string]bool
